@@ -190,10 +190,17 @@ def judge_declarative(case, ctx, prefix):
     ctx.evaluated(repr((sorted(e['type'] for e in els), sorted(e.get('direction', '') for e in els), sum('place_after' in e for e in els), sum('length' in e for e in els))), True)
     ctx.count('declarative_lists')
     ctx.sample({'declarative': [{k: ([v.real, v.imag] if isinstance(v, complex) else v) for k, v in e.items()} for e in els], 'unit': unit})
-    sch = call(create_schematic, copy.deepcopy(desc))
-    if raised(sch):
-        ctx.violation(f'{prefix}/declarative/raised/{sch.key}', f'create_schematic raised {sch.text}', {})
+    from .. import purity
+    shared = copy.deepcopy(desc)                   # ONE description object, used twice
+    before = purity.fp(shared)
+    first_use = call(create_schematic, shared)
+    sch = call(create_schematic, shared)
+    if raised(sch) or raised(first_use):
+        bad = first_use if raised(first_use) else sch
+        ctx.violation(f'{prefix}/declarative/raised/{"first-use" if raised(first_use) else "second-use"}/{bad.key}', f'create_schematic raised {bad.text}', {})
         return
+    if purity.fp(shared) != before:
+        ctx.violation(f'{prefix}/declarative/description-modified', 'create_schematic changed the description it was given (direction/length/place_after or values)', {})
 
     def programmatic():
         d = elm.Schematic(unit=unit, show=False)
@@ -231,7 +238,11 @@ def judge_declarative(case, ctx, prefix):
     diff = circuits_equal(c_prog, c_decl)
     ctx.count('declarative_compared')
     if diff:
-        ctx.violation(f'{prefix}/declarative/differs-from-programmatic/{diff[0]}', f'{diff[1]}', {})
+        ctx.violation(f'{prefix}/declarative/differs-from-programmatic/{diff[0]}', f'(second use of the same description object) {diff[1]}', {})
+    c_first = call(circuit_translator, first_use)
+    d1 = circuits_equal(c_prog, c_first) if not raised(c_first) else ('untranslatable', c_first.text)
+    if d1:
+        ctx.violation(f'{prefix}/declarative/differs-from-programmatic/{d1[0]}', f'(first use) {d1[1]}', {})
 
 
 def guards(m, tier):
